@@ -219,7 +219,11 @@ func runTScenario(t *testing.T, raw []byte) (lines []M, problem string) {
 					if e.Id == "precanceled" {
 						cancel() // the caller's context is already done when the execution starts
 					}
-					ex := failsafe.NewExecutor[string](bs.policies...).WithContext(ctx).
+					ex := failsafe.NewExecutor[string](bs.policies...)
+					if rec.alt&2 == 0 {
+						ex = ex.WithContext(ctx) // (alt&2: the context is attached after the listeners)
+					}
+					ex = ex.
 						OnSuccess(func(ev failsafe.ExecutionDoneEvent[string]) {
 							rec.info("ExecOnSuccess", 0, ev, ev.Result, ev.Error, nil)
 						}).
@@ -227,6 +231,9 @@ func runTScenario(t *testing.T, raw []byte) (lines []M, problem string) {
 							rec.info("ExecOnFailure", 0, ev, ev.Result, ev.Error, nil)
 						}).
 						OnDone(func(ev failsafe.ExecutionDoneEvent[string]) { rec.info("ExecOnDone", 0, ev, ev.Result, ev.Error, nil) })
+					if rec.alt&2 != 0 {
+						ex = ex.WithContext(ctx).WithContext(nil)
+					}
 					x := e.X
 					rec.tline(M{"ev": "Start", "x": x}, nil)
 					wg.Add(1)
